@@ -192,6 +192,7 @@ type scenario struct {
 	Steps    int         `json:"steps,omitempty"`
 	N        int         `json:"n"`
 	Checks   []checkKind `json:"checks,omitempty"` // P&T: readiness checks of template i
+	Anon     bool        `json:"anon,omitempty"`   // P&T: ALL templates are unnamed (the composer associates by position)
 	Prev     []prevCond  `json:"prev,omitempty"`   // XR status conditions left by earlier reconciles (seeded)
 	Claim    int         `json:"claim"`            // 0 no claimRef, 1 claimRef and the claim exists, 2 claimRef to a missing claim
 	Rounds   []round     `json:"rounds"`
@@ -199,6 +200,17 @@ type scenario struct {
 }
 
 func rname(i int) string { return fmt.Sprintf("r%d", i) }
+
+// desiredName tells which desired resource a composed object is. Named templates and functions
+// stamp the composition-resource-name annotation; objects of anonymous templates carry no such
+// annotation and are recognised by the marker value every base/desired resource has in spec.forProvider.v.
+func desiredName(o verifsim.Obj) string {
+	if n := verifsim.Annotations(o)[annName]; n != "" {
+		return n
+	}
+	v, _ := verifsim.Nested(o, "spec", "forProvider", "v").(string)
+	return v
+}
 
 var condTypes = []string{"Ready", "Synced", "Healthy", typeCustomA, typeCustomB}
 
@@ -297,6 +309,7 @@ func genScenario() *rapid.Generator[scenario] {
 			for i := 0; i < sc.N; i++ {
 				sc.Checks = append(sc.Checks, checkKind(rapid.IntRange(0, int(nCheckKinds)-1).Draw(t, "check")))
 			}
+			sc.Anon = rapid.IntRange(0, 2).Draw(t, "anon") == 0
 		}
 		sc.Prev = genPrev().Draw(t, "prev")
 		sc.Claim = rapid.SampledFrom([]int{0, 1, 1, 2}).Draw(t, "claim")
@@ -395,12 +408,15 @@ func (sc scenario) composition() *v1.Composition {
 		base, _ := json.Marshal(map[string]any{"apiVersion": "example.org/v1", "kind": "KindA", "spec": map[string]any{"forProvider": map[string]any{"v": rname(i)}}})
 		pol := v1.FromFieldPathPolicyRequired
 		ct := v1.ComposedTemplate{
-			Name: ptr.To(rname(i)), Base: runtime.RawExtension{Raw: base},
+			Base: runtime.RawExtension{Raw: base},
 			Patches: []v1.Patch{{
 				Type: v1.PatchTypeFromCompositeFieldPath, FromFieldPath: ptr.To("spec.params.p" + fmt.Sprint(i)), ToFieldPath: ptr.To("spec.forProvider.p"),
 				Policy: &v1.PatchPolicy{FromFieldPath: &pol},
 			}},
 			ReadinessChecks: sc.Checks[i].v1(),
+		}
+		if !sc.Anon {
+			ct.Name = ptr.To(rname(i))
 		}
 		c.Spec.Resources = append(c.Spec.Resources, ct)
 	}
@@ -466,7 +482,7 @@ func (w *world) admission(_ *verifsim.View, op verifsim.Op) error {
 	if op.Actor != xrActor || w.cur == nil || op.New == nil || op.Sub != "" {
 		return nil
 	}
-	n := verifsim.Annotations(op.New)[annName]
+	n := desiredName(op.New)
 	if n == "" || verifsim.ControllerUID(op.New) != w.xrUID {
 		return nil
 	}
@@ -489,7 +505,7 @@ func (w *world) admission(_ *verifsim.View, op verifsim.Op) error {
 func (w *world) composedKey(n string) (verifsim.Key, verifsim.Obj) {
 	for _, k := range w.env.Sim.Keys(verifsim.Key{Group: "example.org", Kind: "KindA"}.GK()) {
 		o := w.env.Sim.Get(k)
-		if verifsim.Annotations(o)[annName] == n && verifsim.ControllerUID(o) == w.xrUID {
+		if desiredName(o) == n && verifsim.ControllerUID(o) == w.xrUID {
 			return k, o
 		}
 	}
@@ -665,7 +681,7 @@ func (w *world) reconcile(idx int, rd *round) obs {
 			continue
 		}
 		if wr.Err == "" {
-			o.applied[verifsim.Annotations(wr.After)[annName]] = true
+			o.applied[desiredName(wr.After)] = true
 		}
 	}
 	for _, e := range w.env.Recorder.Warnings() {
@@ -829,7 +845,7 @@ func runScenario(sc scenario, rec *verifkit.Recorder, fail func(string, ...any))
 		if rec != nil {
 			labels(rec, sc, rd, o, t)
 			if nonTrivial(rd, t) {
-				rec.NonTrivial(fmt.Sprintf("%v|%d|%v|%s|%s", sc.Pipeline, sc.N, sc.Checks, verifkit.JSON(rd), verifkit.JSON(o.before)), func() any {
+				rec.NonTrivial(fmt.Sprintf("%v|%v|%d|%v|%s|%s", sc.Pipeline, sc.Anon, sc.N, sc.Checks, verifkit.JSON(rd), verifkit.JSON(o.before)), func() any {
 					return map[string]any{"scenario": sc, "round": i, "before": o.before, "after": o.after}
 				})
 			}
@@ -857,6 +873,12 @@ func labels(rec *verifkit.Recorder, sc scenario, rd *round, o obs, t truth) {
 	mode := "pt"
 	if sc.Pipeline {
 		mode = "pipeline"
+	}
+	if sc.Anon {
+		rec.Label("pt: anonymous templates")
+		for _, r := range rd.Res {
+			rec.Labelf("pt anonymous: outcome=%s", r.Outcome)
+		}
 	}
 	rec.Labelf("reconcile mode=%s", mode)
 	rec.Labelf("%s: failed=%v", mode, t.failed)
@@ -1011,17 +1033,23 @@ func TestVerifC05ExhaustivePT(t *testing.T) {
 	ocs := []outcome{oOK, oInvalid, oRenderFail, oHardErr}
 	provs := []*provStatus{{Cond: "True", State: "up", N: 3, Flag: 1}, {Cond: "False", State: "down", N: 4, Flag: 2}, nil}
 	idx, ran := 0, 0
-	run := func(sc scenario) {
-		idx++
-		if !mine(idx) {
-			return
-		}
-		ran++
-		sc.Seed = int64(idx)
-		rec.Eval()
-		runScenario(sc, rec, func(f string, a ...any) { t.Errorf(f, a...) })
-		if t.Failed() {
-			t.FailNow()
+	run := func(base scenario) {
+		for _, anon := range []bool{false, true} {
+			idx++
+			if !mine(idx) {
+				continue
+			}
+			ran++
+			b, _ := json.Marshal(base) // deep copy: rounds are adjusted in place
+			var sc scenario
+			_ = json.Unmarshal(b, &sc)
+			sc.Anon = anon
+			sc.Seed = int64(idx)
+			rec.Eval()
+			runScenario(sc, rec, func(f string, a ...any) { t.Errorf(f, a...) })
+			if t.Failed() {
+				t.FailNow()
+			}
 		}
 	}
 	calm := func(n int) round {
@@ -1075,6 +1103,15 @@ var pinned = []struct {
 	}}},
 	{"pt: invalid on create", scenario{N: 2, Checks: []checkKind{ckNone, ckNone}, Seed: 12, Rounds: []round{
 		{FatalStep: -1, Res: []resRound{{Outcome: oInvalid}, {}}},
+	}}},
+	{"pt anonymous: a ready composed resource becomes invalid (422 on update)", scenario{N: 2, Anon: true, Checks: []checkKind{ckDefault, ckDefault}, Seed: 21, Rounds: []round{
+		{FatalStep: -1, Res: []resRound{{}, {}}},
+		{FatalStep: -1, Res: []resRound{{Prov: &provStatus{Cond: "True"}}, {Prov: &provStatus{Cond: "True"}}}},
+		{FatalStep: -1, Res: []resRound{{}, {Outcome: oInvalid}}},
+	}}},
+	{"pt anonymous: 422 on create", scenario{N: 2, Anon: true, Checks: []checkKind{ckNone, ckNone}, Seed: 22, Rounds: []round{
+		{FatalStep: -1, Res: []resRound{{Outcome: oInvalid}, {}}},
+		{FatalStep: -1, Res: []resRound{{}, {Outcome: oInvalid}}},
 	}}},
 	{"pipeline: invalid apply of a resource the function calls ready", scenario{Pipeline: true, Steps: 1, N: 2, Seed: 13, Rounds: []round{
 		{FatalStep: -1, Res: []resRound{{Outcome: oInvalid, FnReady: 1}, {FnReady: 1}}},
@@ -1134,6 +1171,13 @@ func TestVerifC05Sanity(t *testing.T) {
 			{FatalStep: -1, Res: []resRound{{}}},
 		}}, []want{{"False", "True"}, {"True", "True"}, {"False", "False"}, {"False", "False"}, {"False", "False"}, {"True", "True"}}},
 	}
+	anon := rows[len(rows)-1]
+	anon.name = "pt anonymous lifecycle"
+	b, _ := json.Marshal(anon.sc)
+	anon.sc = scenario{}
+	_ = json.Unmarshal(b, &anon.sc)
+	anon.sc.Anon = true
+	rows = append(rows, anon)
 	for _, r := range rows {
 		w := newWorld(r.sc)
 		for i := range r.sc.Rounds {
